@@ -36,6 +36,7 @@ def Pc.holds : Pc → Nat → Bool
   | .dqCheck _ q', q | .dqDequeue _ q', q | .dqRequeue _ _ _ q', q | .dqCheck2 _ _ q', q | .dqSetWfw _ _ q', q
   | .dqStore _ _ q', q | .dqSetWfp _ _ q', q | .dqStore2 _ q', q | .dqIdle2 _ q', q | .dqIdle _ q', q => q' == q
   | .dqWakeWith _ _ _ k, q => k.holds q
+  | .fdDrop _ k, q => k.holds q
   | _, _ => false
 
 def State.pcAt (s : State) (a : Nat) : Pc :=
